@@ -3,6 +3,7 @@ CONSTANTS
   Subs = {1, 2}
   Amounts = {1, 2}
   Funds <- FundsSmall
+  GrantSets <- NoGrants
   NativeMetas = {0, 1}
   SpecialIds = {1, 2, 3, 4, 5, 6, 7, 8}
   MaxOps = 1000000
